@@ -551,7 +551,7 @@ class ThurstoneMostellerPart:
         original_teams = copy.deepcopy(teams)
 
         # Correct Sigma With Tau
-        tau = tau if tau else self.tau
+        tau = tau if tau is not None else self.tau
         tau_squared = tau * tau
         for team_index, team in enumerate(teams):
             for player_index, player in enumerate(team):
